@@ -77,8 +77,8 @@ type c09Cfg struct {
 	rich  bool // every file: optional declaration with a free name; optional second transactions (tx2)
 	tx2   int  // rich only: 0 = none, 1 = a second transaction in at most one file, 2 = in any subset of the files
 	pool  int  // names per kind (2 or 3)
-	edits int  // 0: unsaved text in {none, f1} (f0 when n == 1); 1: in {none, any file}
-	via   bool // the unsaved text may also arrive with didOpen (no didChange)
+	edits int  // unsaved text in 0: {none, f1} (f0 when n == 1); 1: {none, any file}; 2: {none, f1, the last file}
+	via   int  // the unsaved text may also arrive with didOpen (no didChange): 0 never, 1 in workspace mode only, 2 in both modes
 }
 
 type c09Occ struct {
@@ -225,12 +225,14 @@ func c09Build(c c09Cfg) *c09WS {
 		switch {
 		case c.edits == 1 && n > 1:
 			w.edit = zzverif.Choice("editfile", n)
+		case c.edits == 2 && n > 2:
+			w.edit = 1 + (n-2)*zzverif.Choice("editlast", 2)
 		case n > 1:
 			w.edit = 1
 		default:
 			w.edit = 0
 		}
-		if c.via {
+		if c.via == 2 || (c.via == 1 && w.ws) {
 			w.viaOpen = zzverif.Choice("viaopen", 2) == 1
 		}
 	}
@@ -709,11 +711,11 @@ func (w *c09WS) reparse(fi int, text string, kind int, renamed []c09Loc, newName
 }
 
 // quick tier
-func VerifC09One()   { verifC09(c09Cfg{n: 1, rich: true, tx2: 2, pool: 3, edits: 0, via: true}) }
-func VerifC09Two()   { verifC09(c09Cfg{n: 2, rich: true, tx2: 1, pool: 2, edits: 0, via: true}) }
+func VerifC09One()   { verifC09(c09Cfg{n: 1, rich: true, tx2: 2, pool: 3, edits: 0, via: 2}) }
+func VerifC09Two()   { verifC09(c09Cfg{n: 2, rich: true, tx2: 1, pool: 2, edits: 0, via: 1}) }
 func VerifC09Three() { verifC09(c09Cfg{n: 3, rich: false, pool: 2, edits: 0}) }
 
 // thorough tier
-func VerifC09TwoLong()   { verifC09(c09Cfg{n: 2, rich: true, tx2: 1, pool: 3, edits: 1, via: true}) }
+func VerifC09TwoLong()   { verifC09(c09Cfg{n: 2, rich: true, tx2: 1, pool: 3, edits: 1, via: 2}) }
 func VerifC09ThreeLong() { verifC09(c09Cfg{n: 3, rich: true, tx2: 0, pool: 2, edits: 1}) }
-func VerifC09FourLong()  { verifC09(c09Cfg{n: 4, rich: false, pool: 2, edits: 1}) }
+func VerifC09FourLong()  { verifC09(c09Cfg{n: 4, rich: false, pool: 2, edits: 2}) }
